@@ -1,6 +1,7 @@
 //! mhv: property-based / fuzzing harness deciding the micro-http properties C01..C18.
 pub mod connrun;
 pub mod engine;
+pub mod fuzzrt;
 pub mod gen;
 pub mod props;
 pub mod refparse;
